@@ -1,5 +1,6 @@
 use crate::engine::Prop;
 
+pub mod c05;
 pub mod c08;
 pub mod c09;
 pub mod c14;
@@ -7,7 +8,7 @@ pub mod c17;
 pub mod fmt_common;
 
 pub fn all() -> Vec<&'static dyn Prop> {
-  vec![&c08::C08, &c09::C09, &c14::C14, &c17::C17]
+  vec![&c05::C05, &c08::C08, &c09::C09, &c14::C14, &c17::C17]
 }
 
 pub fn by_id(id: &str) -> Option<&'static dyn Prop> {
